@@ -884,6 +884,9 @@ class Gen(object):
             else:
                 src = self.pick_reg(lambda q: len(q.sh) == 1 and q.mag <= 4.0)
                 X = self.matrix_from(src, n, n)
+        if self.regs[X].mag > 1.0:
+            # bounded entries keep A = X^T X + 3 I well conditioned whatever came before
+            X = self.emit('un', [X], (n, n), 1.0, f=rng.choice(['sin', 'cos']))
         Xt = self.emit('transpose', [X], (n, n), self.regs[X].mag, t=True, p=True, flat=False)
         m = self.regs[X].mag ** 2 * n
         G = self.emit('dot', [Xt, X], (n, n), m, t=True, p=True)
@@ -933,10 +936,11 @@ class Gen(object):
                 self.emit('lin1', [sv], (n, n), amag, f='vecsym')
         else:
             # tuple-valued: unpack (ends with a failing __getitem__ on a tracer node)
-            if f == 'eigh':
-                # distinct eigenvalues: add a fixed diagonal spread
-                spread = {'ca': numpy.diag([7.0 * (i + 1) for i in range(n)]).tolist()}
-                A = self.emit('add', [A, spread], (n, n), amag + 7.0 * n, t=True, p=True)
+            if f in ('eigh', 'svd'):
+                # distinct eigen/singular values whatever the input: a fixed diagonal spread
+                # whose gaps (25) exceed twice the norm of X^T X (<= n^2 <= 9, entries of X in [-1, 1])
+                spread = {'ca': numpy.diag([25.0 * (i + 1) for i in range(n)]).tolist()}
+                A = self.emit('add', [A, spread], (n, n), amag + 25.0 * n, t=True, p=True)
                 amag = self.regs[A].mag
             shapes = {'qr': [(n, n), (n, n)], 'qr_full': [(n, n), (n, n)], 'eigh': [(n,), (n, n)],
                       'lu': [(n, n), (n, n), (n, n)], 'svd': [(n, n), (n,), (n, n)]}[f]
@@ -1099,7 +1103,7 @@ class Gen(object):
                  'nopb': self.block_nopb, 'tryop': self.block_tryop}.get(fam)
         n_blocks = 0
         if block is not None:
-            n_blocks = 1 if fam in ('linalg', 'kwargs', 'nopb') else rng.randint(1, 2)
+            n_blocks = 1 if fam in ('kwargs', 'nopb') else rng.randint(1, 2)
         block_at = sorted(rng.randint(0, max(0, self.size - 6)) for _ in range(n_blocks))
         budget = self.size
         tries = 0
